@@ -266,6 +266,9 @@ class Tr:
             raise Unsupported("control falls off the end")
         s, rest = stmts[0], stmts[1:]
         # an opaque sub-expression that may raise: evaluated (once) by the first statement that mentions it
+        call = self._inline_target(s)
+        if call is not None:
+            return self.block(self._inline(s, call, rest), ind)
         is_doc = isinstance(s, ast.Expr) and isinstance(s.value, ast.Constant)
         for src, (param, bound) in list(self.spec.get("raising", {}).items()):
             if not is_doc and src not in self.opaque and src in ast.unparse(s):
@@ -383,6 +386,83 @@ class Tr:
                 raise Unsupported("except body")
             return f"{ind}match {self.opaque[call]} with\n{ind}| none => {self.ret(h[0].value)}\n{ind}| some {x} =>\n" + self.block(rest, ind + "  ")
         raise Unsupported(f"statement {type(s).__name__}: {ast.unparse(s)[:50]}")
+
+    # ---- statement-level inlining of private helpers (a function split into helpers translates to the same definition) --------
+    def _inline_target(self, s):
+        """the first call of a private helper (same class / module) inside statement `s`, if the statement is one we can re-write"""
+        if not self.scope or not isinstance(s, (ast.Return, ast.Assign, ast.AnnAssign, ast.Expr)):
+            return None
+        if isinstance(s, ast.Expr) and not isinstance(s.value, ast.Call):
+            return None
+        for n in ast.walk(s):
+            if isinstance(n, ast.Call):
+                hn = self._helper_name(n)
+                if hn is not None and self.dotted(n.func) not in self.spec.get("funcs", {}) and ast.unparse(n) not in self.opaque \
+                        and ast.unparse(n) not in self.spec.get("raising", {}) and self._find_helper(hn) is not None \
+                        and not any(isinstance(x, (ast.For, ast.While, ast.Try, ast.With, ast.Await)) for x in ast.walk(self._find_helper(hn))):
+                    return n
+        return None
+
+    def _splice(self, stmts, cont, tmp):
+        """helper body with every `return e` turned into `tmp = e; <cont>` (`return` / falling off the end: `<cont>`)"""
+        if not stmts:
+            return list(cont)
+        st, more = stmts[0], stmts[1:]
+        if isinstance(st, ast.Expr) and isinstance(st.value, ast.Constant):
+            return self._splice(more, cont, tmp)
+        if isinstance(st, ast.Return):
+            pre = [ast.Assign(targets=[ast.Name(id=tmp, ctx=ast.Store())], value=st.value, lineno=0)] if tmp and st.value is not None else []
+            return pre + list(cont)
+        if isinstance(st, ast.Raise):
+            return [st]
+        if isinstance(st, ast.If) and any(isinstance(x, ast.Return) for x in ast.walk(st)):
+            return [ast.If(test=st.test, body=self._splice(list(st.body) + more, cont, tmp), orelse=self._splice(list(st.orelse) + more, cont, tmp))]
+        return [st] + self._splice(more, cont, tmp)
+
+    def _inline(self, s, call, rest):
+        f = self._find_helper(self._helper_name(call))
+        params = [a for a in f.args.args if a.arg not in ("self", "cls")]
+        if len(params) != len(call.args) or call.keywords:
+            raise Unsupported(f"call of helper {f.name} with keywords / defaults")
+        binds = []
+        for a, v in zip(params, call.args):
+            if isinstance(v, ast.Name) and v.id == a.arg:
+                continue
+            if isinstance(v, ast.Name) and any(k.startswith(v.id + ".") for k in list(self.rename) + list(self.types)):
+                # an object known only through its attributes: the parameter is an alias of it
+                for table in (self.rename, self.types, self.opaque):
+                    for k in [k for k in table if k.startswith(v.id + ".")]:
+                        table[a.arg + k[len(v.id):]] = table[k]
+                continue
+            binds.append(ast.Assign(targets=[ast.Name(id=a.arg, ctx=ast.Store())], value=v, lineno=0))
+        import copy
+
+        fbody = copy.deepcopy(list(f.body))
+        # locals of the helper that would shadow a name the caller's translation already uses (a parameter of the Lean definition
+        # or a renamed attribute) get a fresh name
+        taken = {v for v in self.rename.values() if v.isidentifier()} | {k for k in self.types if k.isidentifier()}
+        locals_ = {t.id for st in ast.walk(ast.Module(body=fbody, type_ignores=[])) if isinstance(st, (ast.Assign, ast.AnnAssign))
+                   for t in (st.targets if isinstance(st, ast.Assign) else [st.target]) if isinstance(t, ast.Name)}
+        clash = {n: n + "_h" for n in locals_ if n in taken and n not in {a.arg for a in params}}
+        if clash:
+            class Ren(ast.NodeTransformer):
+                def visit_Name(self_, node):
+                    return ast.copy_location(ast.Name(id=clash.get(node.id, node.id), ctx=node.ctx), node)
+
+            fbody = [Ren().visit(st) for st in fbody]
+        if isinstance(s, ast.Expr) and s.value is call:
+            body = self._splice(fbody, rest, None)
+        else:
+            self._ntmp = getattr(self, "_ntmp", 0) + 1
+            tmp = f"{f.name.strip('_')}_{self._ntmp}"
+
+            class Sub(ast.NodeTransformer):
+                def visit_Call(self_, node):
+                    return ast.Name(id=tmp, ctx=ast.Load()) if node is call else self_.generic_visit(node)
+
+            new_s = Sub().visit(s)
+            body = self._splice(fbody, [new_s] + list(rest), tmp)
+        return binds + body
 
     # ---- private helpers of the same class / module, translated on demand ---------------------------------
     def _helper_name(self, call):
